@@ -450,7 +450,12 @@ def emit_fn(vf, src, path, spec, label=None, indent='    ', _canary_copy=False, 
     # emit
     flo = vf.lineno()
     if spec.attrs:
-        vf.emit(indent + spec.attrs)
+        at = spec.attrs
+        if vf.canary and not _canary_copy:
+            at = re.sub(r'rlimit\(\d+\)', 'rlimit(4)', at)   # a canary only has to *fail*; do not spend the budget proving `false`
+        vf.emit(indent + at)
+    elif vf.canary and not _canary_copy:
+        vf.emit(indent + '#[verifier::rlimit(4)]')
     vf.emit(indent + ('pub ' if keep_pub else '') + sig.strip())
     if where.strip():
         vf.emit(indent + '    ' + where.strip())
@@ -484,6 +489,9 @@ def emit_fn(vf, src, path, spec, label=None, indent='    ', _canary_copy=False, 
     body_ob.lines = (blo, bhi)
     if not spec.no_body_check:
         vf.obligs.append(body_ob)
+    for ob in vf.obligs:
+        if ob.kind == 'canary' and ob.func == fname and getattr(ob, 'fn_lines', None) is None and ob.lines and flo <= ob.lines[0] <= bhi:
+            ob.fn_lines = (flo, bhi)
     vf.funcs.append({'name': fname, 'lo': flo, 'hi': bhi, 'origin': src.label, 'path': '::'.join(path),
                      'n_requires': len(spec.requires), 'n_ensures': len(spec.ensures),
                      'n_loops': len(loops)})
